@@ -465,8 +465,16 @@ class SpecEval:
             return self.term(self.eval(args[0], env))
         if name == 'heapsame':
             # heapsame(bigint): the whole heap of that kind is unchanged since entry
+            # every object of that heap that existed in the old state is unchanged
             names = self.heap_names(type_text(args[0]), env)
-            cs = [env.st.heap(n) == env.old.heap(n) for n in names]
+            r = z3.Int('r!hs')
+            cs = []
+            for n in names:
+                a, b = env.st.heap(n), env.old.heap(n)
+                if a.eq(b):
+                    continue
+                cs.append(z3.ForAll([r], z3.Implies(z3.And(r >= 0, r < env.old.alloc), z3.Select(a, r) == z3.Select(b, r)),
+                                    patterns=[z3.Select(a, r)]))
             return z3.And(*cs) if cs else z3.BoolVal(True)
         if name in self.ex.db.specs:
             sd = self.ex.db.specs[name]
